@@ -101,6 +101,10 @@ func (lc *LogicContext) makeSetupUri(uri string, aControl string) string {
 
 func ParseSdp2LogicContext(b []byte) (LogicContext, error) {
 	var ret LogicContext
+	// the zero value of base.AvPacketPt is AvPacketPtG711U: a media section that is absent from the sdp
+	// must not look like an unpackable G711U track
+	ret.audioPayloadTypeBase = base.AvPacketPtUnknown
+	ret.videoPayloadTypeBase = base.AvPacketPtUnknown
 
 	c, err := ParseSdp2RawContext(b)
 	if err != nil {
